@@ -157,6 +157,13 @@ def check_accuracy(rep, repo):
     counts_ok = lambda t: t in (("call", ("mod", "numpy.bincount"), (asarr("labels"),), ()),
                                 ("call", ("mod", "numpy.bincount"), (("param", "labels"),), ()))
     divs = [e for e in w.events if e.kind == "store" and e.aug == "/" and e.target[0] == "idx" and e.target[1] == arr]
+    from ..ir import subterms as _subt
+    if not divs and any(e.kind == "store" and e.target[0] == "idx" and e.target[1] != arr and e.target[1][0] == "alloc"
+                        and any(u == arr for u in _subt(e.value)) for e in w.events):
+        from ..core import AnalysisError
+        raise AnalysisError(f"{fi.qual}: the error counts are kept as they are and the rates are written into a second table by "
+                            "whole-column arithmetic; the measure rules follow the in-place normalisation of the one table - this "
+                            "form is outside the analysable fragment")
     d = {}
     for e in divs:
         ix = e.target[2]
@@ -307,6 +314,25 @@ def check_purity(rep, repo):
                     if rets[0].value == want or vret == want:
                         ok = True
         ok = ok or _purity_loop(w, rets[0].value, cm) or _purity_scalar_loops(w, rets[0].value, cm)
+        if not ok:
+            # the counts filled in place by a worker the change added (inlined here): a K x K table of zeros incremented at
+            # [true label][predicted label] once per pair IS the confusion matrix
+            tabs = {t for t in subterms(rets[0].value) if t[0] == "alloc" and t[1] == "numpy.zeros"}
+            for T in tabs:
+                incs = [e for e in w.events if e.kind == "store" and e.target[0] == "idx" and e.target[1][0] == "idx" and e.target[1][1] == T]
+                lab, prd = values_of(("param", "labels")), values_of(("param", "preds"))
+
+                def elem(x, arr_name):
+                    x = values_of(x)
+                    return x[0] == "idx" and values_of(x[1]) == ("param", arr_name) and x[2][0] == "iterproj" and x[2][1][0] == "call" \
+                        and x[2][1][1] == ("builtin", "zip") and [values_of(a) for a in x[2][1][2]] == [("param", "labels"), ("param", "preds")]
+                if len(incs) == 1 and incs[0].aug == "+" and incs[0].value == ("const", 1) and not incs[0].guards \
+                        and elem(incs[0].target[1][2], "labels") and elem(incs[0].target[2], "preds"):
+                    for mx in ("numpy.max", "numpy.amax"):
+                        inner = ("call", ("mod", mx), (T,), (("axis", ("const", 0)),))
+                        for n_t in sizes:
+                            if rets[0].value == ("bin", "/", ("call", ("mod", "numpy.sum"), (inner,), ()), n_t):
+                                ok = True
     rep.fn("PUR", fi, "purity = sum over predicted groups of max over true classes of M[true][pred], / N", ok,
            f"returns '{show(rets[0].value)[:160] if rets else '?'}' (the matrix must be confusion_matrix(labels, preds) "
            "and the maximum must run over axis 0, the true-class axis)")
